@@ -164,8 +164,12 @@ func hasShare(t *message.Trie) bool {
 	return false
 }
 
-func traceCfg(mode string) string {
-	return fmt.Sprintf("CONSTANT Mode = %q\nINIT TraceInit\nNEXT TraceNext\nCONSTRAINT MarkC\nPOSTCONDITION AllConsumed\nCHECK_DEADLOCK FALSE\n", mode)
+func traceCfg(mode string, strict bool) string {
+	st := "FALSE"
+	if strict {
+		st = "TRUE"
+	}
+	return fmt.Sprintf("CONSTANT Mode = %q\nCONSTANT Strict = "+st+"\nINIT TraceInit\nNEXT TraceNext\nCONSTRAINT MarkC\nPOSTCONDITION AllConsumed\nCHECK_DEADLOCK FALSE\n", mode)
 }
 
 func mcCfg(mode, size string, maxS int, export bool) string {
@@ -243,7 +247,12 @@ func Run(c *core.Ctx) {
 		if len(traces) > 0 {
 			c.Sample(map[string]any{"mode": mode, "trace_head": rawHead(traces[rng.Intn(len(traces))], 4)})
 		}
-		rej := c.ValidateTraces(traces, core.ValidateOpts{Module: "Trie_Trace", Cfg: traceCfg(mode), ChunkSize: 4000})
+		// diagnostic pass: exact agreement of Count / node count with the model in every state (never a verdict)
+		if drej := c.ValidateTraces(traces, core.ValidateOpts{Module: "Trie_Trace", Cfg: traceCfg(mode, true), ChunkSize: 4000, NoCount: true}); len(drej) > 0 {
+			c.Add("diagnostic_internal_mismatches", int64(len(drej)))
+			core.Logf("diagnostic: %d traces differ from the model in Count/node count in a non-empty state (not a verdict)", len(drej))
+		}
+		rej := c.ValidateTraces(traces, core.ValidateOpts{Module: "Trie_Trace", Cfg: traceCfg(mode, false), ChunkSize: 4000})
 		c.ReportRejections(rej, "real message.Trie ("+mode+") disagrees with the C01 matching relation / index bookkeeping")
 	}
 	c.Set("distinct_nontrivial", nontrivial)
